@@ -228,6 +228,9 @@ Definition run_c06 (x : sx) : sx :=
   (* a 7th field ( i kind m ) is a lock-scope probe for the implementation only: the model's steps are atomic,
      so the steps i+1 .. i+m simply follow step i *)
   | SL [c; ord; SL init; SL ths; SL sched; SL nr; _] => run_case c ord init ths sched (map get_B nr)
+  (* an 8th field is the NAME of the cache directory: every path of the model is relative to the cache root and
+     LruDiskCache::init walks whatever is below it, so the name cannot matter *)
+  | SL [c; ord; SL init; SL ths; SL sched; SL nr; _; _] => run_case c ord init ths sched (map get_B nr)
   | _ => err "bad case"
   end.
 
